@@ -21,7 +21,14 @@ func refDigest(set uint, pw string, salt []byte) []byte {
 		return argon2.IDKey([]byte(pw), salt, 1, 8, 1, 32)
 	}
 	key, _ := base64.StdEncoding.DecodeString(vpHmacKeyB64)
-	k, err := scrypt.Key([]byte(pw), salt, 1<<2, 8, 1, 32)
+	r, p := 8, 1 // the schema's defaults; sets 3 and 4 (vpForeignSets) override one of them each
+	if set == 3 {
+		r = 4
+	}
+	if set == 4 {
+		p = 3
+	}
+	k, err := scrypt.Key([]byte(pw), salt, 1<<2, r, p, 32)
 	if err != nil {
 		panic(err)
 	}
@@ -68,13 +75,28 @@ func vpAuth(d *Dir, u, pw string) (r vpAuthRes) {
 	return vpAuthRes{ok, adm, upg, lc.Unix(), err, false}
 }
 
+// vpForeignSets adds two scrypt sets that override only r (set 3) or only p (set 4).
+func vpForeignSets(d *Dir) {
+	h3, err := NewScryptAuthHasher(&ScryptAuthParams{HmacKeyBase64: vpHmacKeyB64, Cost: 2, R: 4})
+	if err != nil {
+		panic(err)
+	}
+	h4, err := NewScryptAuthHasher(&ScryptAuthParams{HmacKeyBase64: vpHmacKeyB64, Cost: 2, P: 3})
+	if err != nil {
+		panic(err)
+	}
+	d.Params[3] = h3
+	d.Params[4] = h4
+}
+
 // VP_C02_ForeignRecord: a record produced by an independent implementation of the schema
 // authenticates with its password, and only with it; any change of the digest is refused.
 func VP_C02_ForeignRecord() {
 	base := vpMkStoreDir()
-	set := uint(1 + vpChoose("record-set", 2))
+	set := uint(1 + vpChoose("record-set", 4))
 	def := uint(1 + vpChoose("default-set", 2))
 	d := vpNewDir(base, def)
+	vpForeignSets(d)
 	pw := vpStr("pw", 3)
 	salt := vpBytes("salt", refSaltLen(set))
 	digest := refDigest(set, pw, salt)
